@@ -402,7 +402,13 @@ class SqlSem:
                     raise Unsupported("* in grouped select")
                 if not ectx.cols:
                     raise BindError("SELECT * with no FROM")
+                excl = self._excluded(opts)
+                for nm in excl:
+                    if not any(c.name == nm for c in ectx.cols):
+                        raise BindError(f"EXCLUDE of a column that does not exist: {nm}")
                 for k, c in enumerate(ectx.cols):
+                    if c.name in excl:
+                        continue
                     out_cols.append(SCol(c.name))
                     for i, r in enumerate(ectx.rows):
                         out_cells[i].append(r.cells[k])
@@ -419,7 +425,13 @@ class SqlSem:
                     raise BindError(f"no such table: {q[0]}.*")
                 if grouped:
                     raise Unsupported("t.* in grouped select")
+                excl = self._excluded(opts)
+                for nm in excl:
+                    if not any(ectx.cols[k].name == nm for k in idx):
+                        raise BindError(f"EXCLUDE of a column that does not exist: {q[0]}.{nm}")
                 for k in idx:
+                    if ectx.cols[k].name in excl:
+                        continue
                     out_cols.append(SCol(ectx.cols[k].name))
                     for i, r in enumerate(ectx.rows):
                         out_cells[i].append(r.cells[k])
@@ -463,8 +475,25 @@ class SqlSem:
 
     def _no_wild_opts(self, opts):
         for k, v in (opts or {}).items():
-            if v:
+            if v and k not in ("opt_exclude", "opt_except"):
                 raise Unsupported(f"wildcard option {k}")
+
+    def _excluded(self, opts):
+        """column names removed by `* EXCLUDE (..)` (DuckDB/Snowflake) or `* EXCEPT (..)` (BigQuery)"""
+        out = []
+        ex = (opts or {}).get("opt_exclude")
+        if ex:
+            if "Multiple" in ex:
+                out += [i["value"] for i in ex["Multiple"]]
+            elif "Single" in ex:
+                out.append(ex["Single"]["value"])
+            else:
+                raise Unsupported(f"EXCLUDE form {list(ex)}")
+        ec = (opts or {}).get("opt_except")
+        if ec:
+            out.append(ec["first_element"]["value"])
+            out += [i["value"] for i in ec.get("additional_elements", [])]
+        return out
 
     # ---------------------------------------------------------------- expressions
     def expr(self, e, ctx, i):
